@@ -1,6 +1,11 @@
 package rules
 
 func init() {
+	property(&Property{ID: "C03",
+		Rules: []string{"O2.purge", "VV.server", "K.vv", "O2.cache"},
+		Explanation: "tbd",
+		Assumptions: []string{"tbd"},
+	})
 	property(&Property{ID: "C06",
 		Rules: []string{"K.id", "A1", "K.vv", "K.compare"},
 		Explanation: "tbd",
